@@ -43,6 +43,76 @@ def _norm_rel(c):
     return tuple(c)
 
 
+# identify's table of transformations (a harness-side COPY of identification.transforms: a change of the table in the
+# code makes the templates below stop matching, and the failing case then stays an unexplained violation)
+_TRANSFORMS = [
+    (lambda mp, x, c: x * c, '$y/$c', 0), (lambda mp, x, c: x / c, '$c*$y', 1), (lambda mp, x, c: c / x, '$c/$y', 0),
+    (lambda mp, x, c: (x * c) ** 2, 'sqrt($y)/$c', 0), (lambda mp, x, c: (x / c) ** 2, '$c*sqrt($y)', 1),
+    (lambda mp, x, c: (c / x) ** 2, '$c/sqrt($y)', 0), (lambda mp, x, c: c * x ** 2, 'sqrt($y)/sqrt($c)', 1),
+    (lambda mp, x, c: x ** 2 / c, 'sqrt($c)*sqrt($y)', 1), (lambda mp, x, c: c / x ** 2, 'sqrt($c)/sqrt($y)', 1),
+    (lambda mp, x, c: mp.sqrt(x * c), '$y**2/$c', 0), (lambda mp, x, c: mp.sqrt(x / c), '$c*$y**2', 1),
+    (lambda mp, x, c: mp.sqrt(c / x), '$c/$y**2', 0), (lambda mp, x, c: c * mp.sqrt(x), '$y**2/$c**2', 1),
+    (lambda mp, x, c: mp.sqrt(x) / c, '$c**2*$y**2', 1), (lambda mp, x, c: c / mp.sqrt(x), '$c**2/$y**2', 1),
+    (lambda mp, x, c: mp.exp(x * c), 'log($y)/$c', 0), (lambda mp, x, c: mp.exp(x / c), '$c*log($y)', 1),
+    (lambda mp, x, c: mp.exp(c / x), '$c/log($y)', 0), (lambda mp, x, c: c * mp.exp(x), 'log($y/$c)', 1),
+    (lambda mp, x, c: mp.exp(x) / c, 'log($c*$y)', 1), (lambda mp, x, c: c / mp.exp(x), 'log($c/$y)', 0),
+    (lambda mp, x, c: mp.ln(x * c), 'exp($y)/$c', 0), (lambda mp, x, c: mp.ln(x / c), '$c*exp($y)', 1),
+    (lambda mp, x, c: mp.ln(c / x), '$c/exp($y)', 0), (lambda mp, x, c: c * mp.ln(x), 'exp($y/$c)', 1),
+    (lambda mp, x, c: mp.ln(x) / c, 'exp($c*$y)', 1), (lambda mp, x, c: c / mp.ln(x), 'exp($c/$y)', 0),
+]
+
+
+def _explain_identify(s, x, tol, consts, prec):
+    """Why does the expression `s` miss x?  Looks for the transformation t = f(x, c) of identify's table whose template produced
+    `s`, evaluates the inner expression y (verified enclosures) and t (mpmath at prec+80 bits, used for this classification
+    only) and reports whether the relation holds for the TRANSFORMED value: |t - y| <= 2^10*tol*max(1,|t|).  If it does, the
+    miss is the inverse transformation amplifying the tolerance, not a wrong relation."""
+    out = {}
+    import mpmath
+    neg = False
+    if x < 0:
+        if not (s.startswith("-(") and s.endswith(")")):
+            return out
+        s, x, neg = s[2:-1], -x, True
+    mp = mpmath.mp.clone()
+    mp.prec = int(prec) + 80
+    X = mp.mpf(x.numerator) / x.denominator
+    names = ["1"] + [c for c in consts if c != "1"]
+    for ft, ftn, red in _TRANSFORMS:
+        for cn in names:
+            if red and cn == "1":
+                continue
+            tmpl = ftn.replace('/$c', '') if (cn == "1" and '/$c' in ftn) else ftn.replace('$c', cn)
+            if tmpl.count("$y") != 1:
+                continue
+            pre, post = tmpl.split("$y")
+            if not (s.startswith(pre) and s.endswith(post) and len(s) > len(pre) + len(post)):
+                continue
+            inner = s[len(pre):len(s) - len(post)]
+            try:
+                ast = rel_ops.parse(inner)
+                c = mp.mpf(1) if cn == "1" else eval(cn, {k: getattr(mp, k) for k in ("pi", "e", "sqrt", "log", "exp")})
+                t = ft(mp, X, c)
+            except Exception:
+                continue
+            v = rel_ops.eval_many([ast], [int(prec) + 80])[0]
+            if isinstance(v, tuple) and v and v[0] == "undecided":
+                continue
+            lo, hi = v
+            tq = Fraction(int(t._mpf_[1]) * (-1 if t._mpf_[0] else 1)) * Fraction(2) ** int(t._mpf_[2])
+            far = max(abs(lo - tq), abs(hi - tq))
+            if far <= 1024 * tol * max(1, abs(tq)):
+                out.update({"transform": tmpl, "transformed_value": float(tq), "transformed_residual": float(far),
+                            "transformed_residual_ok": True})
+                return out
+            if "sqrt(0)" in inner and far * far <= 1024 * tol * max(1, abs(tq)):
+                # a quadratic a + b t + c t^2 with discriminant 0: the residual c (t - r)^2 is below tol while |t - r| ~ sqrt(tol)
+                out.update({"transform": tmpl, "transformed_value": float(tq), "transformed_residual": float(far),
+                            "double_root_residual_ok": True})
+                return out
+    return out
+
+
 def run(ctx):
     n = 300 if ctx.quick else 12000
     g = rel_ops.RelGen(ctx.seed)
@@ -203,8 +273,13 @@ def run(ctx):
             elif x < lo - B or x > hi + B:
                 bump("identify", "check:violates")
                 err = min(abs(lo - x), abs(hi - x))
+                inp = {"task": {k: t[k] for k in t if k != "id"}, "expression": s, "x": a["x"], "tol": a["tol"]}
+                try:
+                    inp["explanation"] = _explain_identify(s, x, tol, list(t.get("constants", [])), t["prec"])
+                except Exception as e:  # noqa
+                    inp["explanation"] = {"error": repr(e)[:100]}
                 failing.append({"site": "identification.identify", "what": "expression %s differs from x by %.3g > 2^10*tol*max(1,|x|) = %.3g" % (s, float(err), float(B)),
-                                "input": {"task": {k: t[k] for k in t if k != "id"}, "expression": s, "x": a["x"], "tol": a["tol"]}})
+                                "input": inp})
             else:
                 bump("identify", "undecided:enclosure-straddles-bound")
 
